@@ -303,3 +303,45 @@ package iterator
 //@   ensures iter.pos == iter.n && iter.pulls == old(iter.pulls) + iter.n - old(iter.pos) + 1
 //@   ensures len(result) == min(n, iter.n - old(iter.pos))
 //@   ensures forall t int {result[t]} :: 0 <= t && t < len(result) ==> result[t] == iter.seq[iter.n - len(result) + t]
+
+// ---- Flatten / Join ----
+
+//@ pred fiRep(iter) = itInv(iter.inner)
+//@   && (forall j int {iter.inner.seq[j]} :: 0 <= j && j < iter.inner.n ==> iter.inner.seq[j] != nil && alloc(iter.inner.seq[j]))
+//@   && (forall j1 int, j2 int {iter.inner.seq[j1], iter.inner.seq[j2]} :: 0 <= j1 && j1 < j2 && j2 < iter.inner.n ==> iter.inner.seq[j1] != iter.inner.seq[j2])
+//@   && (forall j int {iter.inner.seq[j]} :: iter.inner.pos <= j && j < iter.inner.n ==> itInv(iter.inner.seq[j]))
+//@   && (iter.curr != nil ==> iter.inner.pos >= 1 && iter.curr == iter.inner.seq[iter.inner.pos-1] && itInv(iter.curr))
+//@   && (forall j int {iter.inner.seq[j]} :: 0 <= j && j < iter.inner.pos - (iter.curr != nil ? 1 : 0) ==> iter.inner.seq[j].pos >= iter.inner.seq[j].n)
+
+//@ func Flatten
+//@   props C07
+//@   ensures fresh(result) && result.(*flattenIterator[T]).inner == iter && result.(*flattenIterator[T]).curr == nil
+
+//@ func flattenIterator.Next
+//@   props C07
+//@   requires fiRep(iter)
+//@   modifies iter.curr, iter.inner.pos, iter.inner.pulls, all(iter.curr.pos), all(iter.curr.pulls)
+//@   loop 0: invariant fiRep(iter) && old(iter.inner.pos) <= iter.inner.pos
+//@   ensures fiRep(iter) && old(iter.inner.pos) <= iter.inner.pos
+//@   ensures result1 ==> iter.curr != nil && iter.curr.pos >= 1 && result0 == iter.curr.seq[iter.curr.pos-1]
+//@   ensures !result1 ==> result0 == zero(result0) && iter.curr == nil && iter.inner.pos >= iter.inner.n
+
+//@ pure jlo(iter) = off(iter.iters)
+//@ pure jhi(iter) = off(iter.iters) + len(iter.iters)
+//@ pred jiRep(iter) = (forall k int {row(iter.iters)[k]} :: jlo(iter) <= k && k < jhi(iter) ==> row(iter.iters)[k] != nil && itInv(row(iter.iters)[k]))
+//@   && (forall k1 int, k2 int {row(iter.iters)[k1], row(iter.iters)[k2]} :: jlo(iter) <= k1 && k1 < k2 && k2 < jhi(iter) ==> row(iter.iters)[k1] != row(iter.iters)[k2])
+//@ pred jiSuffix(iter) = arr(iter.iters) == old(arr(iter.iters)) && jhi(iter) == old(jhi(iter)) && old(jlo(iter)) <= jlo(iter) && row(iter.iters) == old(row(iter.iters))
+//@   && (forall k int {row(iter.iters)[k]} :: old(jlo(iter)) <= k && k < jlo(iter) ==> row(iter.iters)[k].pos >= row(iter.iters)[k].n)
+
+//@ func Join
+//@   props C07
+//@   ensures fresh(result) && result.(*joinIterator[T]).iters == iters
+
+//@ func joinIterator.Next
+//@   props C07
+//@   requires jiRep(iter)
+//@   modifies iter.iters, all(iter.iters[0].pos), all(iter.iters[0].pulls)
+//@   loop 0: invariant jiRep(iter) && jiSuffix(iter)
+//@   ensures jiRep(iter) && jiSuffix(iter)
+//@   ensures result1 ==> len(iter.iters) > 0 && iter.iters[0].pos >= 1 && result0 == iter.iters[0].seq[iter.iters[0].pos-1]
+//@   ensures !result1 ==> result0 == zero(result0) && len(iter.iters) == 0
